@@ -26,6 +26,9 @@ pub enum Mutation {
     Garbage(u16, u8),
     Edit(u16, Vec<u8>),
     Insert(u16, Vec<u8>),
+    /// rewrite the 2-byte length field at the start of a frame region by XOR (possible wherever the field is not
+    /// authenticated: the attacker knows the old length) and cut the frame's body to the new length
+    ResizeFrame(u16, u16),
     /// exact position bit flip (exhaustive enumerations)
     FlipAt(u32, u8),
     TruncateAt(u32),
@@ -57,6 +60,7 @@ fn mutation_strategy() -> BoxedStrategy<Mutation> {
         2 => (any::<u16>(), 1u8..6).prop_map(|(f, k)| Mutation::Garbage(f, k)),
         2 => (any::<u16>(), proptest::collection::vec(any::<u8>(), 1..24)).prop_map(|(p, b)| Mutation::Edit(p, b)),
         1 => (any::<u16>(), proptest::collection::vec(any::<u8>(), 1..40)).prop_map(|(p, b)| Mutation::Insert(p, b)),
+        2 => (any::<u16>(), prop_oneof![proptest::sample::select(vec![0u16, 1, 15, 16, 17, 18, 32, 34]), any::<u16>()]).prop_map(|(f, s)| Mutation::ResizeFrame(f, s)),
     ]
     .boxed()
 }
@@ -191,6 +195,22 @@ pub fn apply(m: &Mutation, b: &Built) -> Mutated {
             let pos = rt::idx(*p, n + 1);
             wire.splice(pos..pos, bytes.iter().copied());
             kind = "insert";
+        }
+        Mutation::ResizeFrame(f, s) => {
+            let k = rt::idx(*f, nreg);
+            let (a, z) = (r[k], r[k + 1]);
+            if z - a > 3 {
+                let old = z - a - 2;
+                let new = (*s as usize) % old;
+                let x = (old ^ new) as u16;
+                let mut nw = orig[..a].to_vec();
+                nw.push(orig[a] ^ (x >> 8) as u8);
+                nw.push(orig[a + 1] ^ (x & 0xff) as u8);
+                nw.extend_from_slice(&orig[a + 2..a + 2 + new]);
+                nw.extend_from_slice(&orig[z..]);
+                wire = nw;
+            }
+            kind = "resize-frame";
         }
     }
     // first changed offset that is *authenticated* (differences confined to unauthenticated padding do not count)
@@ -472,6 +492,10 @@ pub struct DgramTamperCase {
     pub mutation: Mutation,
     /// feed the packet to the decoder of its own sender's side instead (2022 only)
     pub reflect: bool,
+    /// 2022 only: the first `splice_header` bytes are taken from another valid datagram of the same session and direction
+    /// (packet id 2 instead of 1, other payload); 0 = use `mutation`
+    #[serde(default)]
+    pub splice_header: u8,
 }
 
 pub struct DgramTamper;
@@ -489,8 +513,8 @@ impl SubCheck for DgramTamper {
             2 => (any::<u16>(), proptest::collection::vec(any::<u8>(), 1..16)).prop_map(|(p, b)| Mutation::Edit(p, b)),
             1 => (any::<u16>(), proptest::collection::vec(any::<u8>(), 1..16)).prop_map(|(p, b)| Mutation::Insert(p, b)),
         ];
-        (proptest::sample::select(protos).prop_flat_map(gen::cred_for), gen::addr_strategy(), prop_oneof![0u32..64, 64u32..1500], any::<u64>(), any::<bool>(), mutation, proptest::bool::weighted(0.15))
-            .prop_map(|(CredGen { cred, .. }, addr, len, seed, to_server, mutation, reflect)| DgramTamperCase { cred, addr, len, seed, to_server, mutation, reflect })
+        (proptest::sample::select(protos).prop_flat_map(gen::cred_for), gen::addr_strategy(), prop_oneof![0u32..64, 64u32..1500], any::<u64>(), any::<bool>(), mutation, proptest::bool::weighted(0.15), prop_oneof![5 => Just(0u8), 2 => proptest::sample::select(vec![8u8, 16, 24, 32, 40, 48])])
+            .prop_map(|(CredGen { cred, .. }, addr, len, seed, to_server, mutation, reflect, splice_header)| DgramTamperCase { cred, addr, len, seed, to_server, mutation, reflect, splice_header })
             .boxed()
     }
     fn exec(&self, c: &DgramTamperCase) -> Outcome {
@@ -503,8 +527,25 @@ impl SubCheck for DgramTamper {
         let payload = gen::keystream(c.seed, 0, c.len as usize);
         let reflect = c.reflect && matches!(c.cred.proto, Proto::Ss22(_));
         // build a valid packet of the chosen direction with the reference
+        let mut sibling: Option<Vec<u8>> = None;
         let wire: Vec<u8> = match c.cred.proto {
             Proto::SsLegacy(l) => ss::encode_datagram(l, &keys.legacy_key, &d.bytes(l.key_len()), &c.addr, &payload),
+            Proto::Ss22(cc) if c.splice_header > 0 && !reflect => {
+                // two valid datagrams of one session: packet ids 1 and 2, different payloads
+                let other = gen::keystream(c.seed ^ 0x5157, 0, (c.len as usize) + 3);
+                let (sid, ssid) = (d.u64(), d.u64());
+                let ipsks = if cc.is_aes() { keys.client_ipsks.clone() } else { vec![] };
+                let mk = |pid: u64, pl: &Vec<u8>, xn: Vec<u8>| {
+                    if c.to_server {
+                        ss2022::encode_udp_client(cc, &keys.client_upsk, &ipsks, &UdpClientPacket { sid, pid, typ: 0, ts: T0, padding: vec![], addr: c.addr.clone(), payload: pl.clone(), xnonce: xn })
+                    } else {
+                        ss2022::encode_udp_server(cc, &keys.client_upsk, &UdpServerPacket { ssid, pid, typ: 1, ts: T0, client_sid: sid, padding: vec![], addr: c.addr.clone(), payload: pl.clone(), xnonce: xn })
+                    }
+                };
+                let (x1, x2) = (d.bytes(24), d.bytes(24));
+                sibling = Some(mk(2, &other, x2));
+                mk(1, &payload, x1)
+            }
             Proto::Ss22(cc) => {
                 // For reflection the packet is crafted so that it is *well-formed when parsed as the opposite type*:
                 // only the type byte (and nothing accidental) stands between it and delivery.
@@ -522,7 +563,17 @@ impl SubCheck for DgramTamper {
             _ => unreachable!(),
         };
         let fake = Built { frames: refside::Frames { wire: wire.clone(), frame_ends: vec![], units: vec![], session: refside::SessionInfo::None, unauth: vec![], header_end: 0 }, payload: vec![], client: None };
-        let m = if reflect { Mutated { wire: wire.clone(), w: 0, neutral: false, kind: "reflect", unchanged: false } } else { apply(&c.mutation, &fake) };
+        let m = if reflect {
+            Mutated { wire: wire.clone(), w: 0, neutral: false, kind: "reflect", unchanged: false }
+        } else if let Some(sib) = &sibling {
+            let n = (c.splice_header as usize).min(wire.len()).min(sib.len());
+            let mut w2 = sib[..n].to_vec();
+            w2.extend_from_slice(&wire[n..]);
+            let unchanged = w2 == wire;
+            Mutated { wire: w2, w: 0, neutral: false, kind: "header-splice", unchanged }
+        } else {
+            apply(&c.mutation, &fake)
+        };
         out.label(format!("mutation:{}", m.kind));
         if m.unchanged {
             return out;
@@ -575,10 +626,10 @@ pub fn run(ctx: &mut PropCtx) {
         .into();
     ctx.assumptions = vec!["Trojan is not an encrypted protocol and is out of the property's scope".into(), "a decoder panic on tampered input releases nothing; it is reported by C07, not here".into()];
     let t = ctx.tier;
-    rt::run_sub(ctx, &StreamTamper, t.pick(60_000, 1_500_000));
+    rt::run_sub(ctx, &StreamTamper, t.pick(300_000, 3_000_000));
     let cases = exhaustive_cases(ctx.seed, t);
     rt::run_list(ctx, &StreamTamperExhaustive, "stream-tamper-exhaustive", cases);
     ctx.mark_exhaustive("stream-tamper-exhaustive", "every byte position (quick: one bit per byte; thorough: all 8) and every truncation point of one 3-frame stream per decoder configuration");
-    rt::run_sub(ctx, &Reflect, t.pick(10_000, 200_000));
-    rt::run_sub(ctx, &DgramTamper, t.pick(40_000, 800_000));
+    rt::run_sub(ctx, &Reflect, t.pick(50_000, 400_000));
+    rt::run_sub(ctx, &DgramTamper, t.pick(200_000, 2_000_000));
 }
